@@ -69,7 +69,7 @@ CLAIMED = {
          "state holds), the call delivers after finitely many steps an answer solved by a valuation that agrees with it on every variable that "
          "existed before the call - so with soundness the solutions of the delivered answers are exactly the relation; read on lists of any "
          "length: every split of l is covered by an answer of append(q0, q1, l), every element by an answer of member(q0, l). These instantiate "
-         "a general theorem (RelComplete) for programs of ==, !=, domains, constraints, conjunction, disjunction, fresh, relation calls and closure blocks. "
+         "a general theorem (RelComplete) for programs of ==, !=, domains, constraints, conjunction, disjunction, fresh, relation calls, closure blocks and for-loops. "
          "BOUNDED exactness (answer sets and counts): for every list over {1,2} (length <= 3/4) the engine model, "
          "evaluated inside Coq (forallb by vm_compute, lifted), gives exactly the answers of the Vec-based definition for append (both "
          "directions), member, member1, rember, distinct, cons/first/rest/empty. Beyond that scope all argument modes are compared with "
@@ -100,10 +100,10 @@ CLAIMED = {
          "solution of the reading solves an answer state that is delivered after finitely many steps unless an engine step errs first "
          "(Complete0.complete0_delivered), and labeling loses none either: force_ans(q) started in a state th solves delivers a state th "
          "still solves, through lists and compound terms (ForceC.force_delivered, flat_then_label). The same holds for programs with "
-         "CALLS of recursively defined relations and closure blocks, up to the variables drawn while running, given a value-level reading of the "
+         "CALLS of recursively defined relations, closure blocks and for-loops, up to the variables drawn while running, given a value-level reading of the "
          "relations that unfolds to the reading of their bodies (RelComplete.completeV, LibCor.calls_then_label; discharged for the library list "
          "relations). Not proved: the labeling of hidden "
-         "variables under onceo, for/project bodies, and the second half of uniqueness (a program without disjunction has at most one answer "
+         "variables under onceo, project bodies, and the second half of uniqueness (a program without disjunction has at most one answer "
          "state before labeling - Unique.det_one_answer - and labeling enumerates each domain value once, but that the labeled answers "
          "are pairwise different is checked, not proved); completeness and uniqueness over whole programs are decided "
          "against brute force (query variables, lists, compounds, hidden variables).",
